@@ -71,9 +71,9 @@ CLAIMS = {
     'C15': ('Lean 4 theorems on the regenerated model (per module, partial-correctness Hoare triple closed by the VC tactic: validate x = ok v -> every character of v is ASCII), differential run, failing-input search substituting every foreign digit/letter class at every position',
             'Proof for the modules listed in obligations/C15.json (family C15a; all strings, all option values, all dates) on definitions regenerated from the current source; '
             'the other identifier modules are covered by the search only (listed as uncovered); three call sites are known findings.', '§4 C15, §8', ''),
-    'C12': ('Lean 4 theorems on the regenerated model (generated family C12g, one per (module, getter): validate v = ok v -> the getter returns a value or raises a ValidationError, Hoare triple closed by the VC tactic with validate\'s gates as hypotheses), differential run of every getter, failing-input search on valid numbers incl. synthesised edge dates and unknown registry prefixes',
-            'Proof of the totality half of C12 (no exception outside the ValidationError hierarchy on every accepted number, all dates) for the (module, getter) pairs listed in obligations/C12.json on definitions regenerated from the current source; '
-            'the value-consistency half (date agrees with digits, gender in {M,F}, split parts concatenate) and the remaining getters are covered by the search only (listed as uncovered). Four call sites where the statement is false of the code are known findings.', '§4 C12, §8', ''),
+    'C12': ('Lean 4 theorems on the regenerated model: generated family C12g (one per (module, getter): validate v = ok v -> the getter returns a value or raises a ValidationError; Hoare triple closed by the VC tactic) and hand-written value-consistency theorems (split() parts concatenate to the canonical number for imei/imsi/isbn/ismn/isan; get_gender in {M,F} for 13 modules; get_birth_date is a valid calendar date whose day/month/year agree with the digits under the module\'s century rule for 20 modules; be.nn/be.bis year and month agree with the date), negation witness for it.codicefiscale.get_gender; differential run of every getter; failing-input search on valid numbers incl. synthesised edge dates and unknown registry prefixes',
+            'Proof for the (module, getter) pairs and statements listed in obligations/C12.json, for every accepted number in any presentation, all option values and all dates, on definitions regenerated from the current source; '
+            'the remaining getters (se.personnummer / it.codicefiscale dates, cfi, mac, us.ein, registry-backed info()) are covered by the search only (listed as uncovered). Four call sites where the statement is false of the code are known findings.', '§4 C12, §8', ''),
 }
 
 REASON_PENDING = 'check not yet registered (build in progress: machinery exists under tools/ but is not yet free of open triage on the unchanged tree)'
